@@ -97,15 +97,25 @@ impl Prop for C12 {
     }
 }
 
+/// The primitive decoders (static: the enumerator must not depend on the library behaving).
 fn prim_names<C: Suite>() -> Vec<(String, WKind, WPath)> {
-    let m = material::<C>(3, 2, IdKind::Seq, "names").expect("material");
-    wire_items::<C>(&m)
-        .into_iter()
-        .filter(|i| matches!(i.kind, WKind::Scalar | WKind::Element | WKind::Signature | WKind::ElementVec))
-        .map(|i| (i.name, i.kind, i.path))
-        .collect()
+    let mut v = vec![];
+    for n in ["Identifier", "SigningShare", "Nonce", "Delta", "Sigma", "Randomizer"] {
+        for p in [WPath::Raw, WPath::Postcard, WPath::Json] {
+            v.push((n.to_string(), WKind::Scalar, p));
+        }
+    }
+    v.push(("SigningKey".to_string(), WKind::Scalar, WPath::Raw));
+    v.push(("SignatureShare".to_string(), WKind::Scalar, WPath::Raw));
+    for n in ["VerifyingShare", "VerifyingKey", "NonceCommitment", "CoefficientCommitment"] {
+        for p in [WPath::Raw, WPath::Postcard, WPath::Json] {
+            v.push((n.to_string(), WKind::Element, p));
+        }
+    }
+    v.push(("Signature".to_string(), WKind::Signature, WPath::Raw));
+    v.push(("VssCommitment.whole".to_string(), WKind::ElementVec, WPath::Raw));
+    v
 }
-
 
 fn run_case<C: Suite>(c: &Case) -> Outcome {
     match c {
